@@ -35,7 +35,7 @@ def pretty (h : Heap) : Nat → List Cont → Bool → Bool → Val → Option B
   | n + 1, path, quote, check, v =>
     if check && onPath path v then some b!"<circular reference>" else
     match v with
-    | .str s => some (if quote then [34] ++ s ++ [34] else s)
+    | .str s _ => some (if quote then [34] ++ s ++ [34] else s)
     | .num x => some x.format
     | .bool b => some (if b then b!"true" else b!"false")
     | .nil _ => some b!"null"
@@ -84,7 +84,7 @@ def toJVal (h : Heap) : Nat → List Cont → Bool → Val → GoValRes JVal
   | n + 1, path, check, v =>
     if check && onPath path v then .error "circular reference" else
     match v with
-    | .str s => .ok (.str s)
+    | .str s _ => .ok (.str s)
     | .bool b => .ok (.bool b)
     | .num x =>
       match x.jsonFormat with
